@@ -54,12 +54,38 @@ type analysed struct {
 	Out  outcome
 	Env  *irdump.Env
 	FB   *facts.FactBase
+	// the first of the two analyses (see analyseCases)
+	FirstEnv *irdump.Env
+	FirstOut outcome
 }
 
-// analyseCases runs the real analysis on every loaded case.
+// analyseCases analyses every case twice: once on the packages of l, then once more on a fresh load
+// of the same sources in this process (same package paths, fresh go/types objects and positions).
+// The analyses of the SECOND load are returned, so that every runner works on what the real code
+// gives a process that has already analysed these packages (cmd/gomacro handles several files of
+// one package in a row); FirstEnv keeps the dump of the first analysis.
 func analyseCases(l *load.Loaded) []*analysed {
-	var out []*analysed
 	fatal := preflightAnalysis(l)
+	first := analyseCasesOnce(l, fatal)
+	l2, err := l.Reload(l.Mod.Cases)
+	if err != nil {
+		return first
+	}
+	second := analyseCasesOnce(l2, fatal)
+	byID := map[string]*analysed{}
+	for _, a := range first {
+		byID[a.Case.ID] = a
+	}
+	for _, a := range second {
+		if f := byID[a.Case.ID]; f != nil {
+			a.FirstEnv, a.FirstOut = f.Env, f.Out
+		}
+	}
+	return second
+}
+
+func analyseCasesOnce(l *load.Loaded, fatal map[string]string) []*analysed {
+	var out []*analysed
 	for _, c := range l.Mod.Cases {
 		p := l.Pkgs[c.ID]
 		if p == nil {
